@@ -479,6 +479,13 @@ func (w *Workspace) computeReachableLocked() map[string]bool {
 	if w.rootJournalPath == "" {
 		return reachable
 	}
+	// The loader refuses an include made by a file that is MaxIncludeDepth levels deep
+	// (the root is level 1): such an edge does not make its target a member.
+	maxDepth := 0
+	if w.loader != nil {
+		maxDepth = w.loader.Limits().MaxIncludeDepth
+	}
+	depth := map[string]int{w.rootJournalPath: 1}
 	queue := []string{w.rootJournalPath}
 	for len(queue) > 0 {
 		path := queue[0]
@@ -487,8 +494,14 @@ func (w *Workspace) computeReachableLocked() map[string]bool {
 			continue
 		}
 		reachable[path] = true
+		if maxDepth > 0 && depth[path] >= maxDepth {
+			continue
+		}
 		for _, inc := range w.includeGraph[path] {
 			if !reachable[inc] {
+				if _, ok := depth[inc]; !ok {
+					depth[inc] = depth[path] + 1
+				}
 				queue = append(queue, inc)
 			}
 		}
